@@ -1031,6 +1031,11 @@ class ExcelCompiler:
 
             self.log.debug(f"Handling {dependant.address}")
 
+            if self._values_changed and not dependant.needs_calc:
+                # left from a build which failed before a value was
+                # changed, its stored result is not known to be good
+                self._reset(dependant)
+
             for precedent_address in dependant.needed_addresses:
                 if precedent_address.address not in self.cell_map:
                     self._gen_graph(precedent_address, recursed=True)
